@@ -66,6 +66,11 @@ pub fn battery(d: &mut Ddnnf, tt: &TT, rng: &mut Rng) -> Vec<(String, String, St
             chk(format!("atomic{}", if cross { "-cross" } else { "" }), got.map(|g| format!("{:?}", g)), format!("{:?}", want));
         }
     }
+    // CNF export (a memo of an earlier export that survives an edit would show here)
+    if tt.count() > 0 && n >= 2 && n <= 8 && d.nodes.len() <= 48 {
+        let got = guarded(|| { let c = ddnnife_cnf::Cnf::from(&*d); let t = c.to_string(); crate::cnf_props::judge_cnf(&c, &t, tt).err().unwrap_or_else(|| "ok".into()) });
+        chk("Cnf::from (Tseitin export)".into(), got, "ok".into());
+    }
     // seeded sampling: validity
     if tt.count() > 0 {
         let got = guarded(|| match d.uniform_random_sampling(&[], 5, 7) {
